@@ -91,4 +91,41 @@ theorem time_base_input (n : Nat) (epochs : List Rat) (h : n ≤ epochs.length) 
     timeBaseFromInput n epochs = epochs.take n ∧ (timeBaseFromInput n epochs).length = n := by
   simp [timeBaseFromInput, h]
 
+/-! ### Per-component series -/
+
+/-- **Every record carries its own component's series.** When no two collected series share name,
+node number and component type — which the configuration rules guarantee: names are unique within
+one category of a switchboard / shaft line, and the type determines the category — the series
+attached to a component's record is that component's. -/
+theorem series_own (items : List SeriesItem) (h : (items.map SeriesItem.key).Nodup) :
+    ∀ s ∈ items, seriesFor items s.name s.node s.type = some s := by
+  induction items with
+  | nil => intro s hs; cases hs
+  | cons x xs ih =>
+    intro s hs
+    have hx : x.key ∉ xs.map SeriesItem.key := (List.nodup_cons.mp h).1
+    have hxs : (xs.map SeriesItem.key).Nodup := (List.nodup_cons.mp h).2
+    rcases List.mem_cons.mp hs with rfl | hs'
+    · simp [seriesFor, List.find?_cons]
+    · have hne : ¬ (x.name = s.name ∧ x.node = s.node ∧ x.type = s.type) := by
+        rintro ⟨h1, h2, h3⟩
+        apply hx
+        have : x.key = s.key := by simp [SeriesItem.key, h1, h2, h3]
+        rw [this]; exact List.mem_map_of_mem hs'
+      have hb : (decide (x.name = s.name) && decide (x.node = s.node) && decide (x.type = s.type)) = false := by
+        by_contra hc
+        simp only [Bool.not_eq_false, Bool.and_eq_true, decide_eq_true_eq] at hc
+        exact hne ⟨hc.1.1, hc.1.2, hc.2⟩
+      have := ih hxs s hs'
+      simp only [seriesFor, List.find?_cons, hb] at this ⊢
+      exact this
+
+/-- The lookup as found (D22), by name and node number only, hands the battery of a switchboard
+the series of the generating set of the same name. -/
+theorem series_legacy_wrong :
+    let g : SeriesItem := ⟨"No. 1", 1, "GENSET", [500, 460]⟩
+    let b : SeriesItem := ⟨"No. 1", 1, "BATTERY", [97, -51]⟩
+    seriesForLegacy [g, b] b.name b.node = some g ∧ seriesFor [g, b] b.name b.node b.type = some b := by
+  constructor <;> decide +kernel
+
 end Feems.Props.C14
